@@ -195,7 +195,7 @@ func TestC01SimRestart(t *testing.T) {
 }
 
 var c08Kinds = map[string]bool{"sent-although-log-covers": true, "duplicate-in-healthy-cluster": true, "cluster-notification-lost": true,
-	"cluster-resolved-lost": true, "first-notification-without-firing": true, "flush-storm": true, "gossip-storm": true, "pushpull-incomplete": true, "harness-or-api-error": true}
+	"cluster-resolved-lost": true, "first-notification-without-firing": true, "flush-storm": true, "gossip-storm": true, "pushpull-incomplete": true, "reliable-update-not-delivered": true, "harness-or-api-error": true}
 
 func init() {
 	// F15: a later-positioned instance logs the group state it froze before its cluster wait, with the
